@@ -265,3 +265,23 @@ Print Assumptions uci_positions_then_go_noq.
 Print Assumptions drawn_roots_answered.
 Print Assumptions sessions_by_theorem.
 Print Assumptions lied_flag_null_move.
+
+(** * 4. C10 over sessions with searches and option changes (UciLegal5) *)
+From Morlock.Lemmas Require Import UciLegal5.
+
+(** without quiescence, Hash option off or on: after ANY list of GUI-form position lines, ucinewgame,
+    go depth d (1..127) and setoption-Hash commands the driver is alive and the engine game is the one
+    the last position line describes, built from that line alone on the specification *)
+Theorem uci_session_game_noq z qfuel size :
+  b_HashValue z false qfuel ->
+  forall cmds u0 line, d_last (u_d u0) = [] -> Forall (valid_ucmd2 false qfuel) cmds ->
+  last_of None cmds = Some line ->
+  exists u' g, srun z false qfuel (mk_table_of size) u0 None cmds = Some (u', Some line) /\
+               setup line = Some g /\ ERel (d_eng (u_d u')) g /\ EInv (d_eng (u_d u')).
+Proof.
+  intros Hh cmds u0 line H0 Hv Hl.
+  apply (session_game z false qfuel (mk_table_of size)); try assumption.
+  - apply mk_table_of_ok. exact Hh.
+  - intros d p _. apply LeavesUpTo_noq. reflexivity.
+Qed.
+Print Assumptions uci_session_game_noq.
